@@ -78,7 +78,7 @@ int main(int argc, char **argv) {
         r.rax = regs[0]; r.rcx = regs[1]; r.rdx = regs[2]; r.rbx = regs[3];
         r.rsp = regs[4]; r.rbp = regs[5]; r.rsi = regs[6]; r.rdi = regs[7];
         r.rip = CODE_ADDR;
-        r.eflags = (eflags & 0x00000ed5) | 0x202;       /* CF PF AF ZF SF DF OF from the case; IF set; TF clear */
+        r.eflags = (eflags & 0x00240ed5) | 0x202;       /* CF PF AF ZF SF DF OF (and AC, ID for the pushf/popf probes) from the case; IF set; TF clear */
         r.orig_rax = -1;
         if (status == 0 && ptrace(PTRACE_SETREGS, child, 0, &r) < 0) status = 0xffff;
         if (status == 0 && (flags & 1)) {
